@@ -127,4 +127,109 @@ theorem recomputeFrom_marked {d : Defects} (he : d.emptyDayRow = true) (hl : d.l
       · exact ⟨g', n1, n2⟩
       · exact ⟨g', List.mem_cons_of_mem _ n1, n2⟩
 
+
+/-! ### the same for the window read before the loop (the code since 079e672) -/
+
+theorem walkRows_marked {d : Defects} (he : d.emptyDayRow = true) (sigs : Content) (room ent : Nat)
+    (l : List DayRow) (c : Cursor) :
+    ∀ r ∈ l, r.dirty = true → ∃ r' ∈ (walkRows d sigs room ent c l).2, DailyRight sigs room ent r.day r' := by
+  induction l generalizing c with
+  | nil => intro r hr; cases hr
+  | cons a t ih =>
+    intro r hr hd
+    simp only [walkRows]
+    rcases List.mem_cons.mp hr with e | e
+    · subst e
+      obtain ⟨r', e1, e2⟩ := stepRow_marked he sigs room ent c hd
+      exact ⟨r', by simp [e1], e2⟩
+    · obtain ⟨r', m1, m2⟩ := ih (stepRow d sigs room ent c a).1 r e hd
+      exact ⟨r', by simp [m1], m2⟩
+
+theorem mem_fromFirstDirty_of_dirty {rows : List DayRow} {r : DayRow} (hr : r ∈ rows) (hd : r.dirty = true) :
+    r ∈ fromFirstDirty rows := by
+  induction rows with
+  | nil => cases hr
+  | cons a t ih =>
+    unfold fromFirstDirty at ih ⊢
+    rw [List.dropWhile_cons]
+    cases ha : a.dirty with
+    | true => simp only [Bool.not_true, Bool.false_eq_true, ↓reduceIte]; exact hr
+    | false =>
+      simp only [Bool.not_false, ↓reduceIte]
+      rcases List.mem_cons.mp hr with e | e
+      · subst e; rw [ha] at hd; cases hd
+      · exact ih e
+
+theorem recomputeGroup_marked_static {d : Defects} (he : d.emptyDayRow = true) (hl : d.lazyScan = false)
+    (sigs : Content) (c : Cursor) (g : Group) :
+    (recomputeGroup d sigs c g).2.room = g.room ∧ (recomputeGroup d sigs c g).2.ent = g.ent ∧
+    ∀ r ∈ g.rows, r.dirty = true →
+      ∃ r' ∈ (recomputeGroup d sigs c g).2.rows, DailyRight sigs g.room g.ent r.day r' := by
+  cases hre : (fromFirstDirty g.rows).isEmpty with
+  | true =>
+    have e : recomputeGroup d sigs c g = (c, g) := by simp [recomputeGroup, hre]
+    rw [e]
+    refine ⟨rfl, rfl, ?_⟩
+    intro r hr hd
+    have := fromFirstDirty_nil_clean (List.isEmpty_iff.mp hre) r hr
+    rw [hd] at this; cases this
+  | false =>
+    cases hs : d.historySeedDropped with
+    | true =>
+      have e : recomputeGroup d sigs c g =
+          ((walkRows d sigs g.room g.ent c ((cleanPrefix g.rows).getLast?.toList ++ fromFirstDirty g.rows)).1,
+           { g with rows := (cleanPrefix g.rows).dropLast ++
+              (walkRows d sigs g.room g.ent c ((cleanPrefix g.rows).getLast?.toList ++ fromFirstDirty g.rows)).2 }) := by
+        simp [recomputeGroup, hre, hl, hs]
+      rw [e]
+      refine ⟨rfl, rfl, ?_⟩
+      intro r hr hd
+      obtain ⟨r', m1, m2⟩ := walkRows_marked he sigs g.room g.ent
+        ((cleanPrefix g.rows).getLast?.toList ++ fromFirstDirty g.rows) c r
+        (List.mem_append_right _ (mem_fromFirstDirty_of_dirty hr hd)) hd
+      exact ⟨r', List.mem_append_right _ m1, m2⟩
+    | false =>
+      have e : recomputeGroup d sigs c g =
+          ((walkRows d sigs g.room g.ent (seedCursor c g.room g.ent (cleanPrefix g.rows).getLast?)
+              (fromFirstDirty g.rows)).1,
+           { g with rows := cleanPrefix g.rows ++
+              (walkRows d sigs g.room g.ent (seedCursor c g.room g.ent (cleanPrefix g.rows).getLast?)
+                (fromFirstDirty g.rows)).2 }) := by
+        simp [recomputeGroup, hre, hl, hs]
+      rw [e]
+      refine ⟨rfl, rfl, ?_⟩
+      intro r hr hd
+      obtain ⟨r', m1, m2⟩ := walkRows_marked he sigs g.room g.ent (fromFirstDirty g.rows)
+        (seedCursor c g.room g.ent (cleanPrefix g.rows).getLast?) r (mem_fromFirstDirty_of_dirty hr hd) hd
+      exact ⟨r', List.mem_append_right _ m1, m2⟩
+
+/-- every marked day of the table is recomputed to the count and daily hash of its content -/
+theorem recomputeFrom_marked_static {d : Defects} (he : d.emptyDayRow = true) (hl : d.lazyScan = false)
+    (sigs : Content) (log : Log) (c : Cursor) :
+    ∀ g ∈ log, ∀ r ∈ g.rows, r.dirty = true →
+      ∃ g' ∈ recomputeFrom d sigs c log, g'.room = g.room ∧ g'.ent = g.ent ∧
+        ∃ r' ∈ g'.rows, DailyRight sigs g.room g.ent r.day r' := by
+  induction log generalizing c with
+  | nil => intro g hg; cases hg
+  | cons a t ih =>
+    intro g hg r hr hd
+    obtain ⟨m1, m2, m3⟩ := recomputeGroup_marked_static he hl sigs c a
+    have hcons : recomputeFrom d sigs c (a :: t) =
+        if (recomputeGroup d sigs c a).2.rows.isEmpty then recomputeFrom d sigs (recomputeGroup d sigs c a).1 t
+        else (recomputeGroup d sigs c a).2 :: recomputeFrom d sigs (recomputeGroup d sigs c a).1 t := rfl
+    rw [hcons]
+    rcases List.mem_cons.mp hg with e | e
+    · subst e
+      obtain ⟨r', k1, k2⟩ := m3 r hr hd
+      have hne : (recomputeGroup d sigs c g).2.rows.isEmpty = false := by
+        cases hx : (recomputeGroup d sigs c g).2.rows with
+        | nil => rw [hx] at k1; cases k1
+        | cons _ _ => rfl
+      rw [hne]
+      exact ⟨_, List.mem_cons_self, m1, m2, r', k1, k2⟩
+    · obtain ⟨g', n1, n2⟩ := ih (recomputeGroup d sigs c a).1 g e r hr hd
+      split
+      · exact ⟨g', n1, n2⟩
+      · exact ⟨g', List.mem_cons_of_mem _ n1, n2⟩
+
 end Discret.DailyLog
